@@ -207,9 +207,18 @@ func genShutdownIR(repo string) (genFile, error) {
 		for _, st := range fd.Body.List {
 			t := src(fset, st)
 			switch {
-			case strings.HasPrefix(t, "var ("), strings.HasPrefix(t, "opts = GetOptions()"), strings.HasPrefix(t, "runtime.GOMAXPROCS("),
-				strings.HasPrefix(t, "logger = "), strings.HasPrefix(t, "if !opts.ProducerEnabled"), strings.HasPrefix(t, "protos := []proto{"):
-				// set-up, no synchronisation
+			case reSigChan.MatchString(t):
+				// the channel the signals are relayed to, and its capacity: package os/signal does not block when it relays a
+				// signal, so one that arrives while nobody receives is kept only if the channel has room for it
+				msteps = append(msteps, ".makeSignalChan "+reSigChan.FindStringSubmatch(t)[1])
+			case t == "var ( wg sync.WaitGroup signalCh = make(chan os.Signal) )":
+				msteps = append(msteps, ".makeSignalChan 0")
+			case t == "opts = GetOptions()":
+				// the options phase (F32): flags, configuration file, pid-file test (may fork `kill -0`), pid-file write
+				msteps = append(msteps, ".getOptions")
+			case reSetUp.MatchString(t):
+				// set-up without synchronisation: listed (not omitted), so that its position relative to signal.Notify shows
+				msteps = append(msteps, ".setUp")
 			case t == `if opts.IPFIXEnabled { if err := ipfix.LoadExtElements(opts.VFlowConfigPath); err != nil { logger.Println("load.ext.elements:", err) } }`:
 				// the information model shared by the IPFIX and NetFlow v9 decoders is replaced here
 				msteps = append(msteps, ".loadElements")
@@ -232,10 +241,16 @@ func genShutdownIR(repo string) (genFile, error) {
 	} else {
 		msteps = []string{`.unrecognised "main missing"`}
 	}
-	fmt.Fprintf(&b, "/-- main() of vflow/vflow.go (set-up statements without synchronisation omitted) -/\ndef mainSteps : List MStep := [%s]\n", strings.Join(msteps, ", "))
+	fmt.Fprintf(&b, "/-- main() of vflow/vflow.go, every statement (`.setUp`: a statement that synchronises with nothing) -/\ndef mainSteps : List MStep := [%s]\n", strings.Join(msteps, ", "))
 	b.WriteString(footer("ShutdownIR"))
 	return genFile{"ShutdownIR", b.String()}, nil
 }
+
+var (
+	// main(): the declaration block with the signal channel; the set-up statements that synchronise with nothing
+	reSigChan = regexp.MustCompile(`^var \( wg sync\.WaitGroup signalCh = make\(chan os\.Signal, (\d+)\) \)$`)
+	reSetUp   = regexp.MustCompile(`^(runtime\.GOMAXPROCS\(opts\.getCPU\(\)\)|logger = opts\.Logger|if !opts\.ProducerEnabled \{ logger\.Println\("[^"]*"\) \}|protos := \[\]proto\{NewSFlow\(\), NewIPFIX\(\), NewNetflowV5\(\), NewNetflowV9\(\)\})$`)
+)
 
 var reUDPCh = regexp.MustCompile(`UDPCh$`)
 
